@@ -14,16 +14,25 @@ pub struct C16bCase {
     /// the service's input: 0 = project root without filter, 1 = project root with filter txt
     pub svc_input: u8,
     /// edits: 0 src/a.txt, 1 other.txt (root level), 2 a file under .zinoma, 3 editor temporary,
-    /// 4 data/b.bin (other extension)
+    /// 4 data/b.bin (other extension), 5 src/a.txt with a content that makes build b fail
     pub edits: Vec<u8>,
     pub second_build: bool,
+    /// the very first run of build b fails (its input starts with the failing content)
+    #[serde(default)]
+    pub first_fails: bool,
 }
 
 pub fn c16b_case() -> impl Strategy<Value = C16bCase> {
-    (0u8..2, prop::collection::vec(0u8..5, 0..=5), any::<bool>()).prop_map(|(svc_input, edits, second_build)| C16bCase {
-        svc_input,
-        edits,
-        second_build,
+    (0u8..2, prop::collection::vec(0u8..6, 0..=5), any::<bool>(), any::<bool>()).prop_map(|(svc_input, edits, second_build, first_fails)| {
+        // failing runs of b are only generated without the dependent build c (whose reaction to
+        // a failed dependency is not this property's business)
+        let fails = first_fails || edits.contains(&5);
+        C16bCase {
+            svc_input,
+            edits,
+            second_build: second_build && !fails,
+            first_fails,
+        }
     })
 }
 
@@ -54,7 +63,7 @@ fn wait_idle(z: &mut ZProc, sb: &Sandbox, budget: Duration) -> Result<(), String
 
 pub fn eval_c16b(case: &C16bCase) -> CaseResult {
     let sb = Sandbox::new("c16b");
-    sb.write("proj/src/a.txt", b"a0");
+    sb.write("proj/src/a.txt", if case.first_fails { b"bad0".as_slice() } else { b"a0".as_slice() });
     sb.write("proj/other.txt", b"o0");
     sb.write("proj/data/b.bin", b"b0");
     let svc_in = if case.svc_input % 2 == 0 {
@@ -64,7 +73,7 @@ pub fn eval_c16b(case: &C16bCase) -> CaseResult {
     };
     let mut targets = serde_json::Map::new();
     targets.insert("s".into(), json!({"service": "echo \"V s $$\" >> \"$ZV_TRACE\"\nexec sleep 100000", "input": svc_in}));
-    targets.insert("b".into(), json!({"build": build_script("b", "mkdir -p ../outside_out && cp src/a.txt ../outside_out/a.txt"), "input": [{"paths": ["src"]}]}));
+    targets.insert("b".into(), json!({"build": build_script("b", "if grep -q bad src/a.txt; then exit 1; fi; mkdir -p ../outside_out && cp src/a.txt ../outside_out/a.txt"), "input": [{"paths": ["src"]}]}));
     if case.second_build {
         targets.insert("c".into(), json!({"dependencies": ["b"], "build": build_script("c", "sleep 0.05"), "input": [{"paths": ["data"], "extensions": [".bin"]}]}));
     }
@@ -99,12 +108,16 @@ pub fn eval_c16b(case: &C16bCase) -> CaseResult {
     let mut counter = 0;
     let mut classes: BTreeSet<String> = BTreeSet::new();
     classes.insert(if case.svc_input % 2 == 0 { "service-input-root-unfiltered".into() } else { "service-input-root-txt".into() });
+    if case.first_fails {
+        classes.insert("first-run-fails".into());
+    }
     if failure.is_none() && res.inconclusive.is_none() {
         for e in &case.edits {
             counter += 1;
-            let v = format!("v{}", counter);
-            let (rel, label) = match e % 5 {
+            let v = if e % 6 == 5 { format!("bad{}", counter) } else { format!("v{}", counter) };
+            let (rel, label) = match e % 6 {
                 0 => ("proj/src/a.txt", "src/a.txt"),
+                5 => ("proj/src/a.txt", "src/a.txt (content that makes b fail)"),
                 1 => ("proj/other.txt", "other.txt"),
                 2 => ("proj/.zinoma/foreign.txt", ".zinoma/foreign.txt"),
                 3 => ("proj/src/a.txt~", "src/a.txt~"),
@@ -115,8 +128,8 @@ pub fn eval_c16b(case: &C16bCase) -> CaseResult {
             history.push(format!("change {}", label));
             classes.insert(format!("edit-{}", label));
             let unfiltered = case.svc_input % 2 == 0;
-            match e % 5 {
-                0 => {
+            match e % 6 {
+                0 | 5 => {
                     want_s += 1;
                     want_b += 1;
                     // c depends on b: it is re-checked but its own input did not change -> skipped
